@@ -196,6 +196,7 @@ mod verif_c06 {
 
     #[kani::proof]
     #[kani::stub(cobs::decode_in_place_report, report_model)]
+    #[kani::stub(cobs::decode_in_place, in_place_model)]
     #[kani::unwind(302)]
     fn take_wrapper_long() {
         let orig: [u8; LONG] = kani::any();
@@ -226,8 +227,11 @@ mod verif_c06 {
         }
     }
 
+    // both entry points of the cobs decoder are modelled consistently in both harnesses, so a wrapper re-expressed through the
+    // other one (a harmless refactoring) is judged the same way
     #[kani::proof]
     #[kani::stub(cobs::decode_in_place, in_place_model)]
+    #[kani::stub(cobs::decode_in_place_report, report_model)]
     #[kani::unwind(302)]
     fn decode_wrapper_long() {
         let orig: [u8; LONG] = kani::any();
@@ -235,7 +239,7 @@ mod verif_c06 {
         kani::assume(l <= LONG);
         let err: bool = kani::any();
         let dst: usize = kani::any();
-        kani::assume(dst <= l);
+        kani::assume(dst <= first_zero(&orig[..l]));
         unsafe { STUB_ERR = err; STUB_DST = dst; }
         let mut buf = orig;
         let got = from_bytes_cobs::<u8>(&mut buf[..l]);
